@@ -2,6 +2,7 @@ import HdVerif.Model.Codec
 import HdVerif.Generated.T19a
 import HdVerif.Generated.T19b
 import HdVerif.Generated.T19s
+import HdVerif.Generated.T19m
 /-! C19: `pm.ParametricMap`, reading its frames back, `sc.SCImage`.
 
 Translated from the current source (tie T): the pixel data type by dtype (`Gen.pmPixelDataType`), its
